@@ -636,6 +636,21 @@ Proof. vm_compute. reflexivity. Qed.
 Example ex_rel : ~ search nf dotstar_f_end [97; 102; 98]%Z.
 Proof. intros H. apply searchb_correct in H. vm_compute in H. discriminate H. Qed.
 
+(* an anchor between the star and the end of the pattern: `^.*foo` is "foo on the FIRST line", `foo.*$` "foo on the LAST line".
+   Dropping `^.*` / `.*$` the way a bare `.*` may be dropped (Regex.search_drop_leading_star / _trailing_star) changes the answer
+   on texts of several lines; with a dot that matches the newline ((?s)) it does not. Inputs: "x\nfoo", "foo\nx". *)
+Let foo := Literal false [102; 111; 111]%Z.
+Example anchored_any_is_not_containment :
+  ~ search nf (Concat [BeginText; Star AnyCharNotNL; foo]) [120; 10; 102; 111; 111]%Z /\
+  ~ search nf (Concat [foo; Star AnyCharNotNL; EndText]) [102; 111; 111; 10; 120]%Z /\
+  search nf foo [120; 10; 102; 111; 111]%Z /\ search nf foo [102; 111; 111; 10; 120]%Z /\
+  search nf (Concat [BeginText; Star AnyChar; foo]) [120; 10; 102; 111; 111]%Z /\
+  search nf (Concat [foo; Star AnyChar; EndText]) [102; 111; 111; 10; 120]%Z.
+Proof.
+  repeat split; try (intros H; apply searchb_correct in H; vm_compute in H; discriminate H);
+    apply searchb_correct; vm_compute; reflexivity.
+Qed.
+
 (* 40 runes, stars nested under a concatenation of stars *)
 Example ex_big :
   searchb nf (Concat [Star AnyChar; Star (Concat [Star a_or_empty; Quest AnyCharNotNL]); Star AnyChar; Star AnyChar;
